@@ -115,6 +115,9 @@ func runC02(w *World) *Result {
 		}
 		MangleRule(w, b, r, "R-C02-mangle")
 		RegisterRule(w, b, r, "R-C02-reg")
+		if role == "bash" {
+			PositionalRule(w, b, r, "R-C02-reg")
+		}
 		FrameRule(w, b, r, "R-C02-frame")
 		PopRule(w, role, r, "R-C02-pop", "FuncStart")
 	}
